@@ -83,6 +83,9 @@ class Skip(Exception):
     """The drawn case is outside the generated space (too large, degenerate); not counted."""
 
 
+SUT_PHASE_HOOK = [None]
+
+
 class RunCtx(object):
     """Everything one simulated run may touch besides the code under test."""
 
@@ -101,6 +104,13 @@ class RunCtx(object):
 
     def log(self, *ev):
         self.events.append(ev)
+
+    # Where the run is, for the runner's post-mortem of a worker that hung: inside a call
+    # into the code under test (then the call did not return), or in the world / harness.
+    def in_sut(self, on):
+        hook = SUT_PHASE_HOOK[0]
+        if hook is not None:
+            hook(1 if on else 0)
 
     def cover(self, key):
         self.covers.add(key if isinstance(key, str) else repr(key))
